@@ -394,6 +394,54 @@ pub fn run(ctx: &mut Ctx) {
             }
         }
 
+        // the compressed form of an assertion that is ALREADY present, added again through the plain entry points:
+        // nothing changes (one digest, one element)
+        if t.kind == Kind::Node && t.children.len() > 1 {
+            let asr = e.assertions();
+            let a = asr[rng.below(asr.len())].clone();
+            if !a.is_obscured() {
+                if let Ok(ca) = a.compress() {
+                    ctx.eval();
+                    ctx.count("compressed_twin_of_present_assertion_added");
+                    match trap::guard(|| (e.add_assertion_envelope(ca.clone()), e.add_optional_assertion_envelope(Some(ca.clone())), e.add_assertion_envelopes(&[ca.clone()]))) {
+                        Ok((Ok(x), Ok(y), Ok(z))) => {
+                            let eb = env_bytes(&e);
+                            if env_bytes(&x) != eb || env_bytes(&y) != eb || env_bytes(&z) != eb {
+                                ctx.violation("compressed-twin-added/changed", "adding the compressed form of an assertion that is already present changed the envelope", replay());
+                            }
+                        }
+                        Ok(_) => ctx.violation("compressed-twin-added/err", "adding the compressed form of a present assertion was refused", replay()),
+                        Err(p) => ctx.violation(&format!("compressed-twin-added/panic/{}", p.signature()), &format!("{:?}", p), replay()),
+                    }
+                }
+            }
+        }
+        // hand-over as CBOR between compress and uncompress: the compressed envelope converted BY VALUE while nobody
+        // else holds it (and inside a Vec), read back, uncompressed
+        if case % 3 == 0 {
+            ctx.eval();
+            ctx.count("by_value_handover_of_compressed");
+            let eb = env_bytes(&e);
+            match trap::guard(|| {
+                let fresh = Envelope::try_from_cbor_data(eb.clone())?.compress()?;
+                let cb: dcbor::CBOR = fresh.into();
+                let back = Envelope::try_from(cb)?.uncompress()?;
+                let fresh2 = Envelope::try_from_cbor_data(eb.clone())?.compress()?;
+                let arr: dcbor::CBOR = vec![fresh2].into();
+                let items = arr.try_into_array()?;
+                let back2 = Envelope::try_from(items[0].clone())?.uncompress()?;
+                Ok::<_, anyhow::Error>((back, back2))
+            }) {
+                Ok(Ok((b1, b2))) => {
+                    if env_bytes(&b1) != eb || env_bytes(&b2) != eb {
+                        ctx.violation("handover/not-identical", "compress -> CBOR by value -> decode -> uncompress does not give the original", replay());
+                    }
+                }
+                Ok(Err(err)) => ctx.violation("handover/err", &format!("a compressed envelope handed over as CBOR (converted by value) cannot be read back / uncompressed: {}", err), replay()),
+                Err(p) => ctx.violation(&format!("handover/panic/{}", p.signature()), &format!("{:?}", p), replay()),
+            }
+        }
+
         // faults on the compressed element
         let exhaustive = ctx.tier == crate::ctx::Tier::Thorough && case % 8 == 0;
         faults(ctx, &e, &c, &mut rng, exhaustive);
